@@ -40,6 +40,46 @@ class FastCtx(sym.Ctx):
         return d
 
 
+    # -- counterexample validation ------------------------------------------------
+    # A 'sat' answer to an obligation is only accepted if the returned model really
+    # satisfies the negated obligation and the constraints it was asked with (exact
+    # evaluation).  Under heavy machine load a (timed) query was once seen to come
+    # back 'sat' with values that satisfy nothing (it did not replay and did not recur);
+    # such an answer is re-asked to a fresh stock solver and counted in the evidence.
+    def _model_ok(self, m, fs):
+        try:
+            return all(z3.is_true(m.eval(f, model_completion=True)) for f in fs)
+        except z3.Z3Exception:
+            return False
+
+    def prove(self, formula, label, info=None):
+        r = sym.Ctx.prove(self, formula, label, info)
+        if r != 'sat': return r
+        f = formula.e if isinstance(formula, SBool) else formula
+        if isinstance(f, bool): return r
+        neg = z3.simplify(z3.Not(f))
+        cons = self.slice_for(neg)
+        m = self.failures[-1]['model']
+        if self._model_ok(m, [neg]) and (self._model_ok(m, cons) or self._model_ok(m, self.pc)):
+            return r
+        self.stats['invalid_models'] = self.stats.get('invalid_models', 0) + 1
+        self.failures.pop(); self.stats['ob_sat'] -= 1
+        s = z3.Solver(); s.set('timeout', self.timeout_ms)
+        for cn in cons: s.add(cn)
+        s.add(neg)
+        rs = str(s.check())
+        self.stats['queries'] += 1
+        if rs == 'unsat':
+            self.stats['ob_unsat'] += 1
+            return 'unsat'
+        if rs == 'sat' and self._model_ok(s.model(), cons + [neg]):
+            self.stats['ob_sat'] += 1
+            self.failures.append(dict(label=label, info=info, model=s.model(), formula=f))
+            return 'sat'
+        self.stats['ob_unknown'] += 1
+        self.unknowns.append(dict(label=label, info=info))
+        return 'unknown'
+
     # solver front end: the nlsat tactic's solver answers the small polynomial
     # queries of these harnesses ~3x faster than the default portfolio; any
     # answer other than sat/unsat (or an exception: term outside QF_NRA) is
@@ -51,7 +91,38 @@ class FastCtx(sym.Ctx):
         if FastCtx._tactic is None:
             FastCtx._tactic = z3.Tactic('qfnra-nlsat')
         cons = self.pc if full else self.slice_for(extra)
-        return self._solve_cached(extra, cons, full, timeout_ms)
+        r = self._solve_cached(extra, cons, full, timeout_ms)
+        if full and r[0] == 'unknown':
+            m = self._model_by_components(extra, timeout_ms)
+            if m is not None: return 'sat', m
+        return r
+
+    def _model_by_components(self, extra, timeout_ms):
+        """A model of the FULL path condition + extra assembled from models of its
+        variable-disjoint components (each solved on its own); used only to
+        give replays values for every input when the monolithic query is too
+        hard.  Returns None unless every component is sat."""
+        items = [(c, self.vars_of(c)) for c in list(self.pc) + [extra]]
+        comps = []
+        for c, vs in items:
+            hit = [k for k in comps if k[1] & vs]
+            merged = ([c], set(vs))
+            for k in hit:
+                merged[0].extend(k[0]); merged[1].update(k[1]); comps.remove(k)
+            comps.append(merged)
+        fix = z3.Solver()
+        for cs, vs in comps:
+            s = z3.Solver(); s.set('timeout', timeout_ms or self.timeout_ms)
+            for c in cs: s.add(c)
+            if str(s.check()) != 'sat': return None
+            m = s.model()
+            for d in m.decls():
+                if d.arity() != 0: continue
+                v = m[d]
+                if z3.is_algebraic_value(v): v = v.approx(30)
+                fix.add(d() == v)
+        if str(fix.check()) != 'sat': return None
+        return fix.model()
 
     def _solve_cached(self, extra, cons, full, timeout_ms):
         # cross-path cache of UNSAT answers: the very same query (same formula,
@@ -106,6 +177,7 @@ def zterm(x):
 def formula(ob):
     """(label, kind, lhs, rhs) -> z3 Bool"""
     label, kind, lhs, rhs = ob
+    if lhs is None or rhs is None: return z3.BoolVal(False)      # a missing value never equals a number
     a, b = zterm(lhs), zterm(rhs)
     if z3.is_int(a) and not z3.is_int(b): a = z3.ToReal(a)
     if z3.is_int(b) and not z3.is_int(a): b = z3.ToReal(b)
